@@ -272,6 +272,25 @@ def run(res, proof):
             res.nontriv(('rate_set', form, fr(v)))
             if not ok:
                 res.violation('rate_constant:' + form, {'op': ['rate_set', form, repr(arg)]}, obs, repr(exp))
+                continue
+            # the printed form of the reaction shows the constant as it was set (six significant digits), its units, the type
+            # and the members in the object's order
+            import re
+            try:
+                text = r.reaction_string
+                m = re.match(r'^reaction \[\s*(\S+?)\s*(?:=\s*(\S+)(?:\s+(/\S+))?)?\s*\] (.*) -> (.*)$', text)
+                shown = None if (m is None or m.group(2) is None) else float(m.group(2))
+                ok = (m is not None and m.group(1) == r.rtype
+                      and [x.strip() for x in m.group(4).split(' + ')] == [x.name for x in r.reactants]
+                      and [x.strip() for x in m.group(5).split(' + ')] == [x.name for x in r.products]
+                      and ((shown is None and v == 0) or (shown is not None and abs(shown - v) <= 1e-5 * abs(v) and m.group(3) == exp[1])))
+                obs = text
+            except Exception as e:
+                ok, obs = False, 'err ' + type(e).__name__
+            res.count('reaction_string')
+            if not ok:
+                res.violation('reaction_string:' + form, {'op': ['rate_set', form, repr(arg)]}, obs,
+                              'type %s, constant %r (6 significant digits), units %r, members as in the object' % (r.rtype, v, exp[1]))
     try:
         r._const, r._units = 5, None
         r.rateformat('/M/s')
